@@ -472,6 +472,33 @@ func (v *Verifier) globalObj(st *State, g *ssa.Global) (*Object, bool) {
 		v.assume("package-level parameter record " + g.Pkg.Pkg.Name() + "." + g.Name() + " is fixed (stored to only by functions named init*: checked syntactically; sync.Once initialisation is treated as already done); its numeric contents are not checked at the ring layer")
 		return o, true
 	}
+	if sl, isSlice := t.Underlying().(*types.Slice); isSlice && g.Pkg != nil {
+		// a table written as a slice literal of integer constants (var sizes = []uint8{A: 32, B: 48, ...}): the package
+		// initialiser allocates an array, stores the constants and stores a slice of it into the variable; nobody
+		// else stores to the variable or (checked: no other use of the array) to the array
+		if _, isInt := intKind(sl.Elem()); isInt && !v.globalWrittenOutsideInit(g) {
+			if cells, n, ok := constSliceLiteral(g); ok {
+				es := make([]Value, n)
+				for i := range es {
+					es[i] = v.F.I64(0)
+				}
+				for i, c := range cells {
+					es[i] = v.constVal(c)
+				}
+				back := v.newObject(g.Name()+"^", types.NewArray(sl.Elem(), int64(n)), true)
+				back.Global = true
+				v.constObjs[back] = &AggV{es}
+				o := v.newObject(g.Name(), t, true)
+				o.Global = true
+				val := &SliceV{Obj: back, Off: v.F.I64(0), Len: v.F.I64(int64(n)), Cap: v.F.I64(int64(n))}
+				v.globals[g] = o
+				v.globalInit[g] = val
+				st.mem[o] = val
+				v.assume("package-level table " + g.Pkg.Pkg.Name() + "." + g.Name() + " holds the constants of its slice literal (only the package initialiser stores to it and to its backing array: checked syntactically)")
+				return o, true
+			}
+		}
+	}
 	// only arrays/structs of integers
 	val, ok := v.tryZero(t)
 	if !ok {
@@ -533,6 +560,67 @@ func (v *Verifier) globalObj(st *State, g *ssa.Global) (*Object, bool) {
 	st.mem[o] = val
 	v.assume("package-level variable " + g.Pkg.Pkg.Name() + "." + g.Name() + " holds its initialiser's constant value (only the package initialiser stores to it: checked syntactically; functions that receive its address are verified against their modifies clauses)")
 	return o, true
+}
+
+// constSliceLiteral: the constants of "var g = []T{...}" as the synthetic package initialiser writes them: an
+// allocation of [n]T, stores of constants at constant indices, a slice of the whole array stored into g. Any other
+// use of the array makes the pattern fail.
+func constSliceLiteral(g *ssa.Global) (map[int]*ssa.Const, int, bool) {
+	for _, m := range g.Pkg.Members {
+		fn, ok := m.(*ssa.Function)
+		if !ok || fn.Name() != "init" || fn.Synthetic == "" {
+			continue
+		}
+		for _, b := range fn.Blocks {
+			for _, ins := range b.Instrs {
+				s, ok := ins.(*ssa.Store)
+				if !ok || s.Addr != ssa.Value(g) {
+					continue
+				}
+				slc, ok := s.Val.(*ssa.Slice)
+				if !ok || slc.Low != nil || slc.High != nil || slc.Max != nil {
+					return nil, 0, false
+				}
+				al, ok := slc.X.(*ssa.Alloc)
+				if !ok {
+					return nil, 0, false
+				}
+				at, ok := al.Type().Underlying().(*types.Pointer).Elem().Underlying().(*types.Array)
+				if !ok {
+					return nil, 0, false
+				}
+				cells := map[int]*ssa.Const{}
+				for _, ref := range *al.Referrers() {
+					switch r := ref.(type) {
+					case *ssa.Slice:
+						if r != slc {
+							return nil, 0, false
+						}
+					case *ssa.IndexAddr:
+						ic, ok := r.Index.(*ssa.Const)
+						if !ok {
+							return nil, 0, false
+						}
+						for _, rr := range *r.Referrers() {
+							st, ok := rr.(*ssa.Store)
+							if !ok || st.Addr != ssa.Value(r) {
+								return nil, 0, false
+							}
+							c, ok := st.Val.(*ssa.Const)
+							if !ok {
+								return nil, 0, false
+							}
+							cells[int(ic.Int64())] = c
+						}
+					default:
+						return nil, 0, false
+					}
+				}
+				return cells, int(at.Len()), true
+			}
+		}
+	}
+	return nil, 0, false
 }
 
 // sentinelGlobal models a package-level variable of interface type (sentinel errors such as
